@@ -153,6 +153,16 @@ def check(run):
     for k in range(2 if run.tier == "quick" else 8):
         one_case(run, custom_order_family(rng, (2, 1) if k % 2 else (1, 3)), [0.3, -0.1, 0.2], [(1, 0, 0), (0, 2, 1), (0, 0, 0)], None, "off")
         run.count("declared (non-default) Cartesian component order")
+    from checks.common import DEGENERATE_DISPLACEMENTS, degenerate_pair
+    for k, d in enumerate(DEGENERATE_DISPLACEMENTS if run.tier != "quick" else DEGENERATE_DISPLACEMENTS[:: 2] + DEGENERATE_DISPLACEMENTS[1:2]):
+        for la, lb in ((1, 1), (2, 1)) if run.tier == "quick" else ((1, 1), (2, 1), (1, 2), (2, 2), (3, 1), (0, 2)):
+            s1, s2 = degenerate_pair(rng, la, lb, d)
+            one_case(run, [s1, s2], list(s1.center), [(2, 0, 0), (0, 2, 2), (0, 0, 0), (1, 0, 1)], None, "on-centre")
+        run.count("displacement with special structure")
+    # an s shell exactly at the coordinate origin with the moment origin on it (every odd moment vanishes exactly)
+    for k in range(2):
+        s0 = ShellSpec(0, [0.0, 0.0, 0.0] if k == 0 else [0.5, -2.0, 0.25], [1.3, 0.4], [[0.6, 0.2], [0.5, 0.9]])
+        one_case(run, [s0], list(s0.center), [(2, 0, 0), (2, 2, 0), (4, 0, 0), (0, 2, 4), (1, 0, 0), (0, 0, 0)], None, "on-centre")
     # origins very far away: 3e7 and 1e9 bohr (the (0,0,0) slice must still be the overlap, every slice exact to rounding)
     for far in ([3.0e7, -1.0e7, 2.0e7], [1.0e9, 5.0e8, -7.0e8]):
         specs = random_basis(rng, 2, 2, lmax=2)
